@@ -21,6 +21,14 @@ From BB Require Import BN Brute SpaceFacts TrapFacts PercolateFacts AttractorFac
   Strict PetriNet Control Meta FilterFacts PetriNetFacts TrappistFacts DiagramStruct DiagramSem1 DiagramCache
   DiagramDepth DiagramComplete Termination ControlFacts MetaFacts Candidates StrictFacts MinExpandFacts CandidatesFacts SymbolicTest SymbolicTestFacts Signed ReductionFacts ControlFacts2 Main Blocks BlocksFacts ObsFacts OwnerFacts CandidatesTerm
   PartialOwner BlockMath BlockComplete ASeeds ASeedsFacts LogChecks SkipRule SkipRuleFacts Names NamesFacts Perm PermFacts SCC SCCFacts SCCStruct ControlFacts3 SCCTerm FilterSym Main2 StrategyFacts ControlFacts4 SkipRuleFacts2 SCCComplete SCCAttr BlockComplete2 ControlFacts5 Iso SkipSem ControlFacts6.
+From BB Require Import PyLib PyLibSd PyLibCore PyLibSd2 PyLibScc PySrcSdBase PySrcSdScc PySrcSdSccFacts Control PyLibControl PySrcSdSccMain PySrcSdSccMainFacts.
+
+(* translator tie: the function GENERATED from the current text of expand_source_SCCs.expand_source_SCCs (PySrcSdSccMain.v: root sources, BFS over the levels, recursion through the default expander into the sub-diagrams of the source SCCs, attachment by the generated attach_scc_subdiagram) does what the model's SCC.scc_main does on every diagram satisfying SCCTerm.SI, for every fuel, tape and nesting depth *)
+Theorem C01_source_expand_source_SCCs : forall (fuel : nat) (N : net) (cfg : config) (check_maa : bool) (d : sd) (tape : tape_t) (rec : nat), 1 <= max_motifs cfg -> SI N d -> let '(d', r, tape') := scc_main fuel N cfg check_maa d tape in scc_outcome (py_expand_source_SCCs fuel N cfg d tape check_maa rec) d' r tape'.
+Proof. exact py_expand_source_SCCs_spec. Qed.
+
+Theorem C01_source_expand_source_SCCs_fresh : forall (fuel : nat) (N : net) (cfg : config) (check_maa : bool) (tape : tape_t), 1 <= max_motifs cfg -> let '(d', r, tape') := scc_main fuel N cfg check_maa (init N) tape in scc_outcome (py_expand_source_SCCs fuel N cfg (init N) tape check_maa 0) d' r tape'.
+Proof. exact py_expand_source_SCCs_fresh. Qed.
 
 (* given covering candidates, the filter returns exactly one seed per attractor of the node, and the sets are the attractors *)
 Theorem C01_filter_exact : forall (N : net) (S : space) (motifs : list space) (cands seeds : list state) (sets : list (list state)), trap_space N S -> (forall M : space, In M motifs -> trap_space N M /\ subspace M S = true) -> NoDup cands -> (forall c : state, In c cands -> in_space c S = true) -> covers N S motifs cands -> compute_attractors_filter N false motifs cands = (seeds, Some sets) -> one_to_one N S motifs seeds /\ length sets = length seeds /\ (forall (i : nat) (s : state) (X : list state), nth_error seeds i = Some s -> nth_error sets i = Some X -> forall t : state, In t X <-> reach N s t).
@@ -173,6 +181,8 @@ Example C01_example_aseeds :
   length (expand_aseeds_log 100 ex_sw ex_cfg (init ex_sw) None (min_traps_b ex_sw (top_space 4)) (repeat [] 9)) = 2.
 Proof. vm_compute. repeat split; reflexivity. Qed.
 
+Print Assumptions C01_source_expand_source_SCCs.
+Print Assumptions C01_source_expand_source_SCCs_fresh.
 Print Assumptions C01_filter_exact.
 Print Assumptions C01_filter_exact_seeds_only.
 Print Assumptions C01_check_seeds_ok.
